@@ -1,12 +1,108 @@
 package main
 
 import (
-	_ "golang.org/x/tools/go/callgraph/cha"
-	_ "golang.org/x/tools/go/callgraph/vta"
-	_ "golang.org/x/tools/go/packages"
-	_ "golang.org/x/tools/go/ssa"
-	_ "golang.org/x/tools/go/ssa/ssautil"
-	_ "golang.org/x/tools/go/cfg"
+	"flag"
+	"fmt"
+	"os"
+	"path/filepath"
+	"sort"
+	"strconv"
 )
 
-func main() {}
+// mpbcheck <property-id>|dump [flags]
+//
+//	exit 0: every obligation of the property holds on the analysed tree (known findings printed)
+//	exit 1: VIOLATION lines printed
+//	exit 2: checker broken (load / type errors, panic)
+
+type checkFn func(w *World, r *Report)
+
+var checks = map[string]checkFn{}
+
+func main() {
+	repo := flag.String("repo", envOr("VERIF_REPO", "/repo"), "tree to analyse")
+	verif := flag.String("verif", envOr("VERIF_DIR", "/verif"), "verif directory (evidence, known findings)")
+	tier := flag.String("tier", envOr("VERIF_TIER", "quick"), "quick|thorough")
+	flag.Parse()
+	args := flag.Args()
+	if len(args) < 1 {
+		fmt.Fprintln(os.Stderr, "usage: mpbcheck [flags] <property-id>|dump <what>|explain <file>")
+		os.Exit(2)
+	}
+	seed, _ := strconv.ParseInt(os.Getenv("VERIF_SEED"), 10, 64)
+	abs, err := filepath.Abs(*repo)
+	if err == nil {
+		*repo = abs
+	}
+	defer func() {
+		if e := recover(); e != nil {
+			if be, ok := e.(brokenError); ok {
+				fmt.Fprintf(os.Stderr, "BROKEN: %s\n", be.msg)
+				os.Exit(2)
+			}
+			panic(e)
+		}
+	}()
+	switch args[0] {
+	case "dump":
+		w := loadWorld(*repo, "", "")
+		dump(w, args[1:])
+		return
+	case "explain":
+		if len(args) < 2 {
+			os.Exit(2)
+		}
+		b, err := os.ReadFile(args[1])
+		if err != nil {
+			fmt.Fprintln(os.Stderr, err)
+			os.Exit(2)
+		}
+		os.Stdout.Write(b)
+		fmt.Println()
+		return
+	case "list":
+		var ids []string
+		for id := range checks {
+			ids = append(ids, id)
+		}
+		sort.Strings(ids)
+		for _, id := range ids {
+			fmt.Println(id)
+		}
+		return
+	}
+	id := args[0]
+	fn, ok := checks[id]
+	if !ok {
+		fmt.Fprintf(os.Stderr, "BROKEN: no check registered for %s\n", id)
+		os.Exit(2)
+	}
+	r := newReport(id, *tier, seed)
+	configs := [][2]string{{"", ""}}
+	if *tier == "thorough" {
+		configs = append(configs, [2]string{"windows", "amd64"}, [2]string{"darwin", "arm64"}, [2]string{"linux", "386"})
+	}
+	var cfgNames []string
+	for _, c := range configs {
+		name := "linux/amd64"
+		if c[0] != "" {
+			name = c[0] + "/" + c[1]
+		}
+		cfgNames = append(cfgNames, name)
+		r.Config = name
+		w := loadWorld(*repo, c[0], c[1])
+		r.Inv["packages["+name+"]"] = len(w.Pkgs)
+		r.Inv["module_functions["+name+"]"] = len(w.ModFns)
+		fn(w, r)
+		r.applyFloors()
+	}
+	r.Inv["configs"] = cfgNames
+	os.Exit(r.finish(*verif))
+}
+
+func envOr(k, d string) string {
+	if v := os.Getenv(k); v != "" {
+		return v
+	}
+	return d
+}
